@@ -21,6 +21,19 @@ type VJPCase struct {
 	G []float64    `json:"g"`
 	// Fan: how many operations consume the result before the root (weightedRoot)
 	Fan int `json:"fan,omitempty"`
+	// Bystander: further tensors are derived from the result and from every operand but take no
+	// part in the back-propagated root; built before (1) or after (2) the root
+	Bystander int `json:"bystander,omitempty"`
+	// ResetLeaves: every tracked leaf is reset to a fresh tracked leaf after the forward pass,
+	// right before BackPropagate ("zero the gradients, then backward")
+	ResetLeaves bool `json:"reset_leaves,omitempty"`
+	// ShareUntracked: the all-ones run reuses the untracked operand objects of the weighted run,
+	// which was back-propagated in between
+	ShareUntracked bool `json:"share_untracked,omitempty"`
+	// Extra (1 + operand index, 0 = none): a second graph x*c over that tracked leaf operand is
+	// built before the first back-propagation and back-propagated after it; the gradients add up
+	// on x and nothing else changes
+	Extra int `json:"extra,omitempty"`
 }
 
 func init() {
@@ -85,6 +98,17 @@ func genVJP(t *rapid.T, ops []string, expand bool) VJPCase {
 	c := VJPCase{P: p}
 	c.G = drawWeights(t, len(r.E))
 	c.Fan = drawFan(t)
+	if rapid.IntRange(0, 3).Draw(t, "bystander") == 0 {
+		c.Bystander = rapid.IntRange(1, 2).Draw(t, "bystanderwhen")
+	}
+	c.ResetLeaves = rapid.IntRange(0, 4).Draw(t, "resetleaves") == 0
+	c.ShareUntracked = rapid.IntRange(0, 2).Draw(t, "shareuntracked") == 0
+	if rapid.IntRange(0, 4).Draw(t, "extra") == 0 {
+		k := rapid.IntRange(0, len(p.Leaves)-1).Draw(t, "extrawhich")
+		if p.Leaves[k].Tracked && p.Leaves[k].Pre == 0 {
+			c.Extra = k + 1
+		}
+	}
 	return c
 }
 
@@ -193,15 +217,28 @@ func checkVJP(c VJPCase, property string) *Failure {
 	var avgVals []ref.T
 	var avgSlot []int
 
+	var shared []tensor.Tensor
 	for variant := 0; variant < 2; variant++ {
 		var w []float64
 		if variant == 0 {
 			w = c.G
 		}
 		lib.ResetAncestors()
-		lv, bases, err := prog.RunLibBases(c.P)
+		var reuse []tensor.Tensor
+		if variant == 1 && c.ShareUntracked {
+			reuse = shared
+		}
+		lv, bases, err := prog.RunLibReuse(c.P, reuse)
 		if err != nil {
 			return failf("%s rejected valid arguments: %v", node.Op, err)
+		}
+		if variant == 0 {
+			shared = make([]tensor.Tensor, nl)
+			for i, l := range c.P.Leaves {
+				if !l.Tracked {
+					shared[i] = lv[i]
+				}
+			}
 		}
 		y := lv[last]
 		ys, yv, err := lib.Read(y)
@@ -216,6 +253,22 @@ func checkVJP(c VJPCase, property string) *Failure {
 				return failf("%s forward element %d = %v, defined %v", node.Op, k, yv[k], root.E[k].V)
 			}
 		}
+		bystanders := func() {
+			// tensors computed from the result and the operands that the root does not depend on
+			_ = lv[nl].Scale(2)
+			_ = y.Scale(2)
+			_, _ = y.Mul(y)
+			if len(ys) >= 1 {
+				_, _ = y.Flatten(0)
+			}
+			for i := range c.P.Leaves {
+				_ = lv[i].Scale(3)
+				_, _ = lv[i].Add(lv[i])
+			}
+		}
+		if c.Bystander == 1 {
+			bystanders()
+		}
 		z := y
 		if variant == 0 {
 			z, err = weightedRoot(y, root.Shape, c.G, c.Fan)
@@ -223,8 +276,44 @@ func checkVJP(c VJPCase, property string) *Failure {
 				return failf("weighting the result failed: %v", err)
 			}
 		}
+		// optional second graph over one tracked leaf operand, built before any back-propagation
+		var extra tensor.Tensor
+		var extraC []float64
+		if k := c.Extra - 1; k >= 0 && k < nl && c.P.Leaves[k].Tracked && bases[k] == nil {
+			extraC = make([]float64, len(c.P.Leaves[k].Vals))
+			for j := range extraC {
+				extraC[j] = 0.5 + 0.25*float64(j%5)
+			}
+			extra, err = lv[k].Mul(lib.MustNew(c.P.Leaves[k].Shape, extraC, false))
+			if err != nil {
+				return failf("building a second graph over operand %d failed: %v", k, err)
+			}
+		}
+		if c.Bystander == 2 {
+			bystanders()
+		}
+		if c.P.UseResult {
+			lib.Warm(y) // every kind of call on the result; none of it reaches the root
+		}
+		if c.ResetLeaves {
+			for i, l := range c.P.Leaves {
+				if !l.Tracked {
+					continue
+				}
+				if bases[i] != nil {
+					bases[i].ResetGradContext(true)
+				} else {
+					lv[i].ResetGradContext(true)
+				}
+			}
+		}
 		if err := tensor.BackPropagate(z); err != nil {
 			return failf("%s was accepted but BackPropagate failed (weighted=%v): %v", node.Op, variant == 0, err)
+		}
+		if extra != nil {
+			if err := tensor.BackPropagate(extra); err != nil {
+				return failf("BackPropagate of a second graph over operand %d failed: %v", c.Extra-1, err)
+			}
 		}
 		if c.P.Disturb {
 			prog.Disturbance(c.P, true)
@@ -257,6 +346,12 @@ func checkVJP(c VJPCase, property string) *Failure {
 					return failf("%s: gradient of %s has shape %v, operand shape %v (weighted=%v)", node.Op, who, gs, l.Shape, variant == 0)
 				}
 				want, wsc := prog.Adjoint(root, w, slot[i], len(l.Vals))
+				if extra != nil && i == c.Extra-1 {
+					for k := range want {
+						want[k] += extraC[k]
+						wsc[k] += extraC[k]
+					}
+				}
 				bad := -1
 				for k := range gv {
 					if !closeTo(gv[k], want[k], wsc[k]) {
@@ -273,6 +368,12 @@ func checkVJP(c VJPCase, property string) *Failure {
 						avgVals, avgSlot, _, _ = prog.RunRef(c.P, seed, true)
 					}
 					aw, asc := prog.Adjoint(avgVals[last], w, avgSlot[i], len(l.Vals))
+					if extra != nil && i == c.Extra-1 {
+						for k := range aw {
+							aw[k] += extraC[k]
+							asc[k] += extraC[k]
+						}
+					}
 					match := true
 					for k := range gv {
 						if !closeTo(gv[k], aw[k], asc[k]) {
@@ -308,6 +409,15 @@ func checkVJP(c VJPCase, property string) *Failure {
 	}
 	if c.Fan > 0 {
 		evid.Class(property + ".result_has_several_consumers")
+	}
+	if c.Bystander > 0 {
+		evid.Class(property + ".bystander_consumers")
+	}
+	if c.ResetLeaves {
+		evid.Class(property + ".leaves_reset_between_forward_and_backward")
+	}
+	if c.Extra > 0 {
+		evid.Class(property + ".second_graph_over_an_operand")
 	}
 	zero, cancel := true, 0.0
 	for _, g := range c.G {
